@@ -214,10 +214,9 @@ Definition m_member (c : call) : res :=
 
 (* ==== assoc.go assoc-if.go assoc-if-not.go rassoc.go rassoc-if.go ================================= *)
 (* alist, ok := args[1].(slip.List); if !ok && args[1] != nil { TypePanic }: the Go nil is the empty
-   alist.  With :test the call is test(key, item) — the arguments swapped.  The alist is
-   (k1 . v1) ... given as two lists. *)
+   alist.  With :test the call is test(item, key).  The alist is (k1 . v1) ... given as two lists. *)
 Definition assoc_test (t : testarg) (item k : Z) : bool :=
-  match t with TDefault => item =? k | TTest f => test_app f k item | TTestNot f => negb (test_app f k item) end.
+  match t with TDefault => item =? k | TTest f => test_app f item k | TTestNot f => negb (test_app f item k) end.
 Definition pair_res (o : option (Z * Z)) : res := match o with Some (k, v) => RSeq [k; v] | None => RNil end.
 Definition list_arg (s : seqin) : option (list Z) :=
   match s with SNil => Some [] | SList l => Some l | _ => None end.
